@@ -143,6 +143,7 @@ class Interval(Duration, Generic[_T]):
                         start.second,
                         start.microsecond,
                         tzinfo=start.tzinfo,
+                        fold=start.fold,
                     ),
                 )
             else:
@@ -169,6 +170,7 @@ class Interval(Duration, Generic[_T]):
                         end.second,
                         end.microsecond,
                         tzinfo=end.tzinfo,
+                        fold=end.fold,
                     ),
                 )
             else:
